@@ -226,8 +226,17 @@ class Mutator(ast.NodeTransformer):
         # mark docstring
         if node.body and isinstance(node.body[0], ast.Expr) and isinstance(node.body[0].value, ast.Constant):
             node.body[0].value._doc = True
-        self.generic_visit(node)
+        # annotations are not behaviour: mutate the body (and nested defs) only
+        node.body = [self.visit(st) for st in node.body]
+        node.body = [x for st in node.body for x in (st if isinstance(st, list) else [st])]
         node.body = self.generic_stmt_delete(node.body)
+        return node
+
+    visit_AsyncFunctionDef = visit_FunctionDef
+
+    def visit_AnnAssign(self, node):
+        if node.value is not None:
+            node.value = self.visit(node.value)
         return node
 
     def visit_For(self, node):
@@ -296,7 +305,8 @@ TEST_CMD = ["/venv/bin/python", "-m", "pytest", "-q", "-p", "no:cacheprovider", 
 
 
 def run_one(job):
-    pid, idx, rel, desc, newtext, workdir, seed = job
+    pid, idx, rel, desc, newtext, workdir, seed = job[:7]
+    phase = job[7] if len(job) > 7 else 'both'
     t0 = time.time()
     wd = Path(workdir) / f"{pid}-{idx}"
     if wd.exists():
@@ -308,15 +318,26 @@ def run_one(job):
         orig = (rp / rel).read_text()
         (rp / rel).write_text(newtext)
         import difflib
-        res["diff"] = "".join(list(difflib.unified_diff(orig.splitlines(True), newtext.splitlines(True), rel, rel, n=1))[:60])
+        try:
+            a = ast.unparse(ast.parse(orig)).splitlines(True)
+            b = ast.unparse(ast.parse(newtext)).splitlines(True)
+        except Exception:
+            a, b = orig.splitlines(True), newtext.splitlines(True)
+        res["diff"] = "".join(list(difflib.unified_diff(a, b, rel, rel, n=2))[:60])
         env = dict(os.environ, PYTHONPATH=str(rp / "src"))
         # the -x run stops at the two tools/ collection errors of the baseline, so run without -x but with a cap
-        p = subprocess.run([c for c in TEST_CMD if c != "-x"], cwd=rp, env=env, capture_output=True, text=True, errors="replace", timeout=900)
-        last = (p.stdout.strip().splitlines() or [""])[-1]
-        res["tests"] = last[-120:]
-        if "436 passed" not in last or "failed" in last:
-            res["verdict"] = "killed-by-tests"
-            return res
+        last = ""
+        if phase != "check":
+            p = subprocess.run([c for c in TEST_CMD if c != "-x"], cwd=rp, env=env, capture_output=True, text=True, errors="replace", timeout=900)
+            last = (p.stdout.strip().splitlines() or [""])[-1]
+            res["tests"] = last[-120:]
+        if phase != "check":
+            if "436 passed" not in last or "failed" in last:
+                res["verdict"] = "killed-by-tests"
+                return res
+            if phase == "tests":
+                res["verdict"] = "passes-tests"
+                return res
         vc = wd / "verif"
         subprocess.run(["rsync", "-a", "--exclude", ".git", "--exclude", "replays", str(VERIF) + "/", str(vc) + "/"], check=True)
         env = dict(os.environ, VERIF_REPO=str(rp), VERIF_SEED=str(seed))
@@ -350,6 +371,8 @@ def main():
     ap.add_argument("pids", nargs="+")
     ap.add_argument("--max", type=int, default=40)
     ap.add_argument("--jobs", type=int, default=4)
+    ap.add_argument("--test-jobs", type=int, default=8)
+    ap.add_argument("--max-checks", type=int, default=1000)
     ap.add_argument("--seed", type=int, default=0)
     ap.add_argument("--out", default=str(VERIF / "notes" / "mutcamp"))
     ap.add_argument("--list", action="store_true")
@@ -374,10 +397,18 @@ def main():
                 for rel, desc, _ in sample:
                     print("  ", desc)
                 continue
-            jobs = [(pid, i, rel, desc, newtext, workdir, a.seed) for i, (rel, desc, newtext) in enumerate(sample)]
+            # phase 1: the repo's own tests on every sampled mutant (cheap); phase 2: the check on those that pass
+            jobs = [(pid, i, rel, desc, newtext, workdir, a.seed, "tests") for i, (rel, desc, newtext) in enumerate(sample)]
             results = []
+            with cf.ThreadPoolExecutor(max_workers=a.test_jobs) as ex:
+                phase1 = list(ex.map(run_one, jobs))
+            surv = [j for j, r in zip(jobs, phase1) if r["verdict"] == "passes-tests"]
+            results += [r for r in phase1 if r["verdict"] != "passes-tests"]
+            print(f"{pid}: {len(sample)} mutants, {len(surv)} pass the repo's tests", flush=True)
+            surv = surv[:a.max_checks]
+            jobs2 = [j[:7] + ("check",) for j in surv]
             with cf.ThreadPoolExecutor(max_workers=a.jobs) as ex:
-                for r in ex.map(run_one, jobs):
+                for r in ex.map(run_one, jobs2):
                     results.append(r)
                     print(f"  [{pid} {r['idx']}] {r['verdict']:16s} {r.get('wall')}s {r['desc']}", flush=True)
             summary = {}
